@@ -75,7 +75,7 @@ class EvaluateH(Harness):
             rec["args"].append(arg)
             return R
         node.__dict__["assume"] = assume
-        return {"self": node, "R": R, "rec": rec}
+        return {"self": node, "R": R, "rec": rec, "fam": fam, "sid": node.variable.id.t, "own": (node.variable.bounds.lower, node.variable.bounds.upper)}
 
     def run(self, c, st):
         node = st["self"]
@@ -91,6 +91,36 @@ class EvaluateH(Harness):
                 ("evaluate/post", bounds_eq(res["ev"], want)),
                 ("evaluate_props/post.top", bounds_eq(top, want)),
                 ("evaluate==top-entry", band(res["ev"].lower == top.lower, res["ev"].upper == top.upper))]
+
+
+    def concretise(self, case, k, model, c, st):
+        from .assume import concretise_assume
+        return concretise_assume(case, k, model, c, st)
+
+    def replay(self, w):
+        """natively, relative to the real assume(): evaluate(d) has the bounds of assume(d), the top entry of
+        evaluate_propositions(d) is the same, and both are the reference interval of the model under d"""
+        from .assume import build_assume, _NATIVE
+        from .common import ints
+        node, d, e = build_assume(w)
+        _NATIVE["e"], _NATIVE["de"] = {}, dict(d)
+        want = tuple(int(x) if not hasattr(x, "t") else x for x in ival(build_assume(w)[0], d))
+        ev = build_assume(w)[0].evaluate(dict(d))
+        evp = build_assume(w)[0].evaluate_propositions(dict(d))
+        top = evp.get("A")
+        violated, detail = [], {"model": node.to_text(), "interpretation": {str(k): repr(v) for k, v in d.items()}, "reference": list(want),
+                                "evaluate": ints(ev), "top_entry": ints(top) if top is not None else None}
+        if tuple(ev.as_tuple()) != want:
+            violated.append("evaluate/post")
+        if top is None or tuple(top.as_tuple()) != want:
+            violated.append("evaluate_props/post.top")
+        if top is None or tuple(top.as_tuple()) != tuple(ev.as_tuple()):
+            violated.append("evaluate==top-entry")
+        if violated:
+            # the structural clause "the receiver's assume() is called with the interpretation" has no native observation of
+            # its own; natively its failure shows as one of the clauses above
+            violated.append("evaluate/uses-assume(interpretation)")
+        return {"violated": violated, "detail": detail}
 
 
 HARNESSES = [EvaluateH()]
